@@ -3,11 +3,12 @@
 import os, shutil, subprocess, sys, tempfile, ast
 HERE = os.path.dirname(os.path.dirname(os.path.abspath(__file__)))
 sys.path.insert(0, HERE)
+from engine.selftest import package_part
 tmp = tempfile.mkdtemp(prefix="cinco-dbg-")
 try:
     shutil.copytree("/repo/cincoconfig", os.path.join(tmp, "cincoconfig"), ignore=shutil.ignore_patterns("__pycache__"))
     if sys.argv[1] != "-":
-        subprocess.run(["patch", "-p1", "-s", "-i", os.path.abspath(sys.argv[1])], cwd=tmp, check=True)
+        subprocess.run(["patch", "-p1", "-s", "-i", package_part(os.path.abspath(sys.argv[1]))], cwd=tmp, check=True)
     from engine.model import Model
     from engine.effects import Analysis
     from rules.common import STATE, CALLS
